@@ -692,7 +692,7 @@ impl Check for C11 {
             0x23 => 20,
             _ => 1,
         };
-        let flags = FlagsS { strict: false, real_traps: r.bool(), debug_frames: r.chance(1, 4), ignore_privilege: false, init: gen_init(r) };
+        let flags = FlagsS { strict: false, real_traps: r.bool(), debug_frames: r.chance(1, 4), ignore_privilege: r.chance(1, 4), init: gen_init(r) };
         let mut m = MScn { profile: "C11".into(), entropy: r.next_u64(), flags, srcs: vec![], pokes: vec![], regs: vec![], pc: 0x3000, psr: None, kb: IoSpec::Bare, disp: IoSpec::Bare, devs: vec![], iregs: vec![], events: vec![], ops: vec![], max_ticks: 0 };
         if !keys.is_empty() {
             m.events.push((key_tick, HostEv::PushKeys(keys.clone())));
